@@ -105,6 +105,10 @@ TEMPLATES = [
     ('sort_keyless_rev', _u('sort', key=None, reverse=True, sort_fn=None)),
     ('shard', _shard),
     ('boom', _u('boom', m=2, r=0, exc='FilterException', fn=1)),
+    ('boom_a', _u('boom', m=2, r=1, exc='VErrA', fn=2)),
+    ('prefetch2_catch', _u('prefetch', workers=2, buffer=2, catch=['VErrA', 'VErrC'])),
+    ('prefetch1_catch', _u('prefetch', workers=1, buffer=1, catch=True)),
+    ('catch_a', _u('catch', exc='VErrA')),
     ('concat_list', _concat('list')),
     ('concat_dict', _concat('dict')),
     ('intersperse', _intersperse),
